@@ -49,6 +49,15 @@ def sources(r, n=6):
             parts.append(f'<path d="{sh.format(x=x, y=y)}" fill="{fill}"{op}/>')
         out["src/" + name] = (f'<svg xmlns="http://www.w3.org/2000/svg" viewBox="0 0 100 100">'
                               f'<defs>{defs}</defs>{"".join(parts)}</svg>\n')
+    # one shape used with every combination of (fill, opacity) differences between its first and later uses, inside one
+    # glyph and across glyphs: whatever attributes travel with a reused shape must do so in a fixed order
+    star = "M{x},{y} l8,22 l-20,-14 l24,0 l-20,14 Z"
+    combos = [("#E53935", "0.5"), ("#3949AB", None), ("#00897B", "0.7"), ("#E53935", None), ("#3949AB", "0.5")]
+    for j, name in enumerate(["emoji_u1f9d0.svg", "emoji_u1f9d1.svg"]):
+        parts = []
+        for k, (col, op) in enumerate(combos[j:] + combos[:j]):
+            parts.append(f'<path d="{star.format(x=15 + 16 * k, y=20 + 9 * k + 5 * j)}" fill="{col}"' + (f' opacity="{op}"' if op else "") + "/>")
+        out["src/" + name] = f'<svg xmlns="http://www.w3.org/2000/svg" viewBox="0 0 100 100">{"".join(parts)}</svg>\n'
     return out
 
 
@@ -149,8 +158,8 @@ def run(chk):
                 chk.tlc_violation(res, f"Build/sched/{fam_fmt}")
         # ---- real builds
         files = sources(r, 6 if quick else 8)
-        variants = [{"kind": "base"}, {"kind": "argperm"}, {"kind": "hashseed", "seed": 1},
-                    {"kind": "hashseed", "seed": 12345}, {"kind": "j1"}, {"kind": "topo"}, {"kind": "cwd"}]
+        variants = [{"kind": "base"}, {"kind": "argperm"}, {"kind": "hashseed", "seed": 1}, {"kind": "hashseed", "seed": 2},
+                    {"kind": "hashseed", "seed": 3}, {"kind": "hashseed", "seed": 12345}, {"kind": "j1"}, {"kind": "topo"}, {"kind": "cwd"}]
         if not quick:
             variants += [{"kind": "argperm", "n": 2}, {"kind": "argperm", "n": 3}, {"kind": "hashseed", "seed": 7},
                          {"kind": "hashseed", "seed": 99}, {"kind": "topo", "n": 2}, {"kind": "topo", "n": 3},
